@@ -51,6 +51,21 @@ var childEnv = []string{"GOMAXPROCS=2"}
 
 const baseAppStake = int64(10000000000)
 
+var chainIDs = []string{chain.ChainHash, "21", "0021"}
+
+// nodeChains: the first three nodes serve 0001+0021, the others 0001+21 (as in the genesis).
+func nodeChains(w *chain.World, k chain.Key) []string {
+	for i, n := range append(append([]chain.Key{}, w.Vals...), w.Servs...) {
+		if n.Addr.Equals(k.Addr) {
+			if i < 3 {
+				return []string{chain.ChainHash, "0021"}
+			}
+			return []string{chain.ChainHash, "21"}
+		}
+	}
+	return []string{chain.ChainHash}
+}
+
 type cfg struct {
 	kind     string
 	hseed    uint64
@@ -64,6 +79,7 @@ type env struct {
 	o   chain.GenesisOpts
 	run *chainx.Runner
 	c   cfg
+	vbc *chainx.VbcMonitor
 }
 
 func resetCaches(c cfg) {
@@ -86,15 +102,26 @@ func boot(c cfg) *env {
 		g.Nodes.Params.SessionBlockFrequency = 4
 		g.Nodes.Params.UnstakingTime = 2 * time.Minute
 		g.Apps.Params.UnstakingTime = 2 * time.Minute
-		g.Pocket.Params.SessionNodeCount = 4
+		// a one-byte network identifier and the two-byte identifier with the same low byte, served by
+		// different nodes: 3 nodes each, all six serve 0001; sessions of 3 nodes
+		g.Pocket.Params.SessionNodeCount = 3
+		g.Pocket.Params.SupportedBlockchains = chainIDs
+		for i := range g.Nodes.Validators {
+			if i < 3 {
+				g.Nodes.Validators[i].Chains = []string{chain.ChainHash, "0021"}
+			} else {
+				g.Nodes.Validators[i].Chains = []string{chain.ChainHash, "21"}
+			}
+		}
 		for i := range g.Apps.Applications {
 			g.Apps.Applications[i].StakedTokens = sdk.NewInt(baseAppStake)
+			g.Apps.Applications[i].Chains = chainIDs
 		}
 	}
 	g := chain.BuildGenesis(o)
 	n := chain.NewNode(g, chainID, o.GenesisTime, dbm.NewMemDB(), dbm.NewMemDB(), dbm.NewMemDB(), false)
 	n.InitChain()
-	return &env{w: w, o: o, run: &chainx.Runner{N: n}, c: c}
+	return &env{w: w, o: o, run: &chainx.Runner{N: n}, c: c, vbc: chainx.NewVbcMonitor()}
 }
 
 // restart = a process restart: new app object on the same DBs, every node-local cache empty.
@@ -115,7 +142,7 @@ func (e *env) extraTxs(r *gen.R, height int64, ent *int64) ([][]byte, []string) 
 	if r.Chance(1, 2) {
 		k := e.w.Apps[r.Intn(len(e.w.Apps))]
 		amt := baseAppStake + int64(r.Intn(5))*1000000
-		txs = append(txs, chain.SignTx(chainID, k, chain.MsgAppStake(k, amt, []string{chain.ChainHash}), chain.DefaultFee, next(), ""))
+		txs = append(txs, chain.SignTx(chainID, k, chain.MsgAppStake(k, amt, chainIDs), chain.DefaultFee, next(), ""))
 		kinds = append(kinds, "appedit")
 	}
 	// node edit-stake up and down the stake bins (15e9 each): succeeds only when it reaches a higher bin
@@ -123,7 +150,7 @@ func (e *env) extraTxs(r *gen.R, height int64, ent *int64) ([][]byte, []string) 
 		ks := append(append([]chain.Key{}, e.w.Vals...), e.w.Servs...)
 		k := ks[r.Intn(len(ks))]
 		amt := e.w.MinStake * int64(1+r.Intn(4))
-		txs = append(txs, chain.SignTx(chainID, k, chain.MsgNodeStake(k, amt, []string{chain.ChainHash}, "https://n.example:443", k.Addr, nil), chain.DefaultFee, next(), ""))
+		txs = append(txs, chain.SignTx(chainID, k, chain.MsgNodeStake(k, amt, nodeChains(e.w, k), "https://n.example:443", k.Addr, nil), chain.DefaultFee, next(), ""))
 		kinds = append(kinds, "nodeedit-bin")
 	}
 	if r.Chance(1, 8) {
@@ -153,8 +180,9 @@ func (e *env) extraTxs(r *gen.R, height int64, ent *int64) ([][]byte, []string) 
 				continue
 			}
 			app := e.w.Apps[r.Intn(len(e.w.Apps))]
-			txs = append(txs, chain.SignTx(chainID, nd, chainx.MsgClaim(nd, app, s, 5+int64(r.Intn(10)), byte(r.Intn(3))), chain.DefaultFee, next(), ""))
-			kinds = append(kinds, fmt.Sprintf("claim@%d", s))
+			cid := chainIDs[r.Intn(len(chainIDs))]
+			txs = append(txs, chain.SignTx(chainID, nd, chainx.MsgClaimChain(nd, app, cid, s, 5+int64(r.Intn(10)), byte(r.Intn(3))), chain.DefaultFee, next(), ""))
+			kinds = append(kinds, fmt.Sprintf("claim:%s@%d", cid, s))
 		}
 	}
 	return txs, kinds
@@ -242,8 +270,9 @@ func (a *actor) act(point string, i int) {
 			code = query(n, abci.RequestQuery{Path: rt.Path, Data: rt.Data, Height: h})
 		case "dispatch":
 			app := a.e.w.Apps[r.Intn(len(a.e.w.Apps))]
-			hdr := pocketTypes.SessionHeader{ApplicationPubKey: app.Pub.RawString(), Chain: chain.ChainHash, SessionBlockHeight: 1}
-			desc = "dispatch:" + app.Addr.String()[:8]
+			cid := chainIDs[r.Intn(len(chainIDs))]
+			hdr := pocketTypes.SessionHeader{ApplicationPubKey: app.Pub.RawString(), Chain: cid, SessionBlockHeight: 1}
+			desc = "dispatch:" + cid + ":" + app.Addr.String()[:8]
 			func() {
 				defer func() {
 					if e := recover(); e != nil {
@@ -265,15 +294,15 @@ func (a *actor) act(point string, i int) {
 			case 0, 1: // application edit-stake above whatever the current stake can be
 				k := a.e.w.Apps[r.Intn(len(a.e.w.Apps))]
 				amt := baseAppStake + int64(6+r.Intn(4))*1000000
-				bz, desc = chain.SignTx(chainID, k, chain.MsgAppStake(k, amt, []string{chain.ChainHash}), chain.DefaultFee, ent, ""), fmt.Sprintf("appedit:%s:%d", k.Addr.String()[:8], amt)
+				bz, desc = chain.SignTx(chainID, k, chain.MsgAppStake(k, amt, chainIDs), chain.DefaultFee, ent, ""), fmt.Sprintf("appedit:%s:%d", k.Addr.String()[:8], amt)
 			case 2: // a funded account stakes a new application
 				k := a.e.w.Accts[r.Intn(len(a.e.w.Accts))]
-				bz, desc = chain.SignTx(chainID, k, chain.MsgAppStake(k, baseAppStake, []string{chain.ChainHash}), chain.DefaultFee, ent, ""), "appstake:"+k.Addr.String()[:8]
+				bz, desc = chain.SignTx(chainID, k, chain.MsgAppStake(k, baseAppStake, chainIDs), chain.DefaultFee, ent, ""), "appstake:"+k.Addr.String()[:8]
 			default: // node edit-stake into the highest bin
 				ks := append(append([]chain.Key{}, a.e.w.Vals...), a.e.w.Servs...)
 				k := ks[r.Intn(len(ks))]
 				if r.Bool() {
-					bz, desc = chain.SignTx(chainID, k, chain.MsgNodeStake(k, a.e.w.MinStake*5, []string{chain.ChainHash}, "https://n.example:443", k.Addr, nil), chain.DefaultFee, ent, ""), "nodeedit:"+k.Addr.String()[:8]
+					bz, desc = chain.SignTx(chainID, k, chain.MsgNodeStake(k, a.e.w.MinStake*5, nodeChains(a.e.w, k), "https://n.example:443", k.Addr, nil), chain.DefaultFee, ent, ""), "nodeedit:"+k.Addr.String()[:8]
 				} else {
 					bz, desc = chain.SignTx(chainID, k, chain.MsgNodeUnjail(k.Addr, k.Addr), chain.DefaultFee, ent, ""), "unjail:"+k.Addr.String()[:8]
 				}
@@ -282,11 +311,13 @@ func (a *actor) act(point string, i int) {
 		case "qdispatch":
 			h := a.heights()
 			app := a.e.w.Apps[r.Intn(len(a.e.w.Apps))]
-			rt := chainx.DispatchRoute(app)
-			desc = fmt.Sprintf("qdispatch:%s@%d", app.Addr.String()[:8], h)
+			cid := chainIDs[r.Intn(len(chainIDs))]
+			rt := chainx.DispatchRouteChain(app, cid)
+			desc = fmt.Sprintf("qdispatch:%s:%s@%d", cid, app.Addr.String()[:8], h)
 			code = query(n, abci.RequestQuery{Path: rt.Path, Data: rt.Data, Height: h})
 		}
-		fmt.Printf("act %s %s %s => code=%s cap=%d%s post=%s store=%s\n", a.kind, point, desc, code, a.e.c.cacheCap, extra, chainx.AppCacheDump(n), chainx.AppStoreDump(n))
+		vc, vs := a.e.vbc.Dump(n)
+		fmt.Printf("act %s %s %s => code=%s cap=%d%s post=%s store=%s vbc=%s vbcstore=%s\n", a.kind, point, desc, code, a.e.c.cacheCap, extra, chainx.AppCacheDump(n), chainx.AppStoreDump(n), vc, vs)
 		a.nActs++
 	}
 }
@@ -389,7 +420,8 @@ func twin(role string, c cfg, histPath string) {
 		}
 		fmt.Printf("blk %d %s => %x %s %s %s %s\n", res.Height, kd, res.AppHash, chainx.Codes(res), chainx.ValUpdates(res), chainx.StateDigest(st), chainx.RawDigest(n))
 		// runtime monitor of the coherence invariant after block execution (both twins)
-		fmt.Printf("coh %d => cap=%d post=%s store=%s\n", res.Height, c.cacheCap, chainx.AppCacheDump(n), chainx.AppStoreDump(n))
+		vc, vs := e.vbc.Dump(n)
+		fmt.Printf("coh %d => cap=%d post=%s store=%s vbc=%s vbcstore=%s\n", res.Height, c.cacheCap, chainx.AppCacheDump(n), chainx.AppStoreDump(n), vc, vs)
 		if c.restarts > 0 && (bi+1)%c.restarts == 0 {
 			e.restart()
 			fmt.Printf("restart %d\n", res.Height)
